@@ -347,3 +347,46 @@ func Stacks() string {
 	buf := make([]byte, 1<<20)
 	return string(buf[:runtime.Stack(buf, true)])
 }
+
+// ---------------------------------------------------------------- streaming cases
+
+// StreamCases reads an ndjson case file line by line and calls fn only for the cases of this
+// process's shard (Index % VERIF_SHARDS == VERIF_SHARD), decoding one case at a time, so that
+// big case files do not have to fit into memory once per shard.
+func StreamCases(path string, fn func(c Case) error) error {
+	f, err := os.Open(path)
+	if err != nil {
+		return err
+	}
+	defer f.Close()
+	shard, shards := EnvInt("VERIF_SHARD", 0), EnvInt("VERIF_SHARDS", 1)
+	sc := bufio.NewScanner(f)
+	sc.Buffer(make([]byte, 1<<20), 1<<28)
+	i := -1
+	for sc.Scan() {
+		line := sc.Bytes()
+		if len(line) == 0 {
+			continue
+		}
+		i++
+		if i%shards != shard {
+			continue
+		}
+		c := Case{Index: i, Raw: append([]byte(nil), line...)}
+		if line[0] == '[' {
+			if err := json.Unmarshal(line, &c.Steps); err != nil {
+				return fmt.Errorf("case %d: %v", i, err)
+			}
+		} else {
+			var one M
+			if err := json.Unmarshal(line, &one); err != nil {
+				return fmt.Errorf("case %d: %v", i, err)
+			}
+			c.Steps = []M{one}
+		}
+		if err := fn(c); err != nil {
+			return err
+		}
+	}
+	return sc.Err()
+}
